@@ -514,8 +514,11 @@ pub struct Gs2Server {
 
 impl Responder for Gs2Server {
     fn on_datagram(&mut self, _c: &ConnInfo, data: &[u8]) -> Vec<Vec<u8>> {
-        if data == GS2_REQUEST {
-            vec![self.state.datagram()]
+        // FE FD 00 <request id: 4 bytes> FF FF FF: like a real server, answer whatever the id is and echo it
+        if data.len() == GS2_REQUEST.len() && data[.. 3] == GS2_REQUEST[.. 3] && data[7 ..] == GS2_REQUEST[7 ..] {
+            let mut d = self.state.datagram();
+            d[1 .. 5].copy_from_slice(&data[3 .. 7]);
+            vec![d]
         } else {
             vec![]
         }
